@@ -96,6 +96,9 @@ def schedule_text(f):
             t.append("phase " + seg["phase"][0])
         t.append("seg")
         for c in seg["calls"]:
+            if c.get("nested"):
+                t.append(f"nest {c['client']} {c['op']} {c['a'][2:]} {c['b'][2:]}")
+                continue
             t.append(f"call {c['client']} {c['op']} {c['a'][2:]} {c['b'][2:]}" + (f" {c['fail_alloc']}" if c.get("fail_alloc") else ""))
         for w in seg.get("script", []):
             t.append(f"sw {w['from']} {w['at_yield']} {w['to']}")
@@ -117,15 +120,19 @@ def describe(f):
     parts = []
     for seg in f["segments"]:
         calls = " || ".join(f"c{c['client']}:{c['op']}({c['a']}{',' + c['b'] if int(c['b'], 16) else ''})" +
-                            (f"!alloc#{c['fail_alloc']}fails" if c.get("fail_alloc") else "") for c in seg["calls"])
-        sw = [w for w in seg.get("script", []) if w["from"] != 255 and w["at_yield"] >= 0]
+                            (f"!alloc#{c['fail_alloc']}fails" if c.get("fail_alloc") else "") for c in seg["calls"] if not c.get("nested"))
+        nests = [w for w in seg.get("script", []) if w["to"] == 254]
+        for k, c in enumerate(x for x in seg["calls"] if x.get("nested")):
+            at = f"@{nests[k]['at_yield']}" if k < len(nests) else ""
+            calls += f" <signal{at}: c{c['client']}:{c['op']}({c['a']}{',' + c['b'] if int(c['b'], 16) else ''})>"
+        sw = [w for w in seg.get("script", []) if w["from"] != 255 and w["at_yield"] >= 0 and w["to"] != 254]
         if seg.get("repeat", 1) > 1:
             calls += f" x{seg['repeat']}"
         if seg.get("phase"):
             calls = f"<{seg['phase']}> " + calls
         if seg.get("respawn_before"):
             calls = "restart[" + ",".join(f"c{c}" for c in seg["respawn_before"]) + "] " + calls
-        if len(seg["calls"]) > 1:
+        if len([c for c in seg["calls"] if not c.get("nested")]) > 1:
             calls = "{ " + calls + " }" + (" preempt[" + ", ".join(f"c{w['from']}@{w['at_yield']}->c{w['to']}" for w in sw) + "]" if sw else "")
         parts.append(calls)
     v = f["segments"][f["victim"]["segment"]]["calls"][f["victim"]["call"]]
@@ -161,7 +168,8 @@ SUMMED = ["runs", "calls", "forks", "nontrivial_runs", "isolation_checks", "disa
           "hung_children", "children_refused_threads", "unstable", "fine_executions", "concurrent_segments", "concurrent_calls", "yield_points",
           "preemptions", "baton_handoffs", "long_runs", "very_long_runs", "hot_loop_runs", "crowd_runs", "churn_runs", "planned_respawns", "threads_started",
           "lifecycle_probes", "early_calls", "late_calls", "clock_queries_inside_library_calls", "simulated_ns", "allocations_inside_library_calls", "allocation_failures_injected", "plans_with_allocations", "fault_injecting_executions",
-          "access_records", "nonstack_writes_observed", "conflicting_call_pairs", "plans_with_conflicts", "directed_executions"]
+          "access_records", "nonstack_writes_observed", "conflicting_call_pairs", "plans_with_conflicts", "directed_executions",
+          "nested_calls_delivered", "nest_directed_executions", "same_caller_conflict_pairs", "handler_self_deadlocks"]
 
 
 def run_check(tier, seed):
@@ -306,6 +314,13 @@ def run_check(tier, seed):
             "reading": ("0 writes / 0 conflicts means: in every explored plan no library call wrote memory another call could see, so all "
                         "interleavings of those calls are equivalent to the whole-call execution (a dynamic confirmation, for the explored "
                         "plans, of what audit/seam_audit.py shows statically)")},
+        "same_thread_reentrancy": {
+            "what": ("a simulated signal is delivered to a caller at one of its call's yield points and the handler asks the library another "
+                     "question on the interrupted thread (DESIGN 9.8); both the interrupted and the nested call must return their isolated bits"),
+            "nested_calls_delivered": by_mode["fine"]["nested_calls_delivered"],
+            "conflict_directed_reentrant_executions": by_mode["fine"]["nest_directed_executions"],
+            "same_caller_conflicting_pairs": by_mode["fine"]["same_caller_conflict_pairs"],
+            "handler_self_deadlocks_not_counted_as_anything": by_mode["fine"]["handler_self_deadlocks"]},
         "library_calls_executed": total["calls"],
         "processes_forked": total["forks"],
         "simulated_time": {"seconds_covered_summed_over_executions": round(total["simulated_ns"] / 1e9, 3),
